@@ -7,7 +7,7 @@ use soroban_sdk::xdr::ToXdr;
 use soroban_sdk::{
     contract, contractimpl, contracttype, panic_with_error,
     testutils::{Address as _, Ledger as _},
-    Address, Bytes, BytesN, Env, Map, String, Vec,
+    Address, Bytes, BytesN, Env, IntoVal, Map, String, Val, Vec,
 };
 use stellar_tokens::rwa::claim_issuer::{
     self as ci, ClaimIssuer, ClaimIssuerError, Ed25519Verifier, Secp256k1Verifier, Secp256r1Verifier,
@@ -156,6 +156,32 @@ impl IssuerC {
     pub fn expired(e: Env, data: Bytes) -> bool { ci::is_claim_expired(&e, &data) }
 }
 
+/// A FOREIGN claim issuer: a contract that is not built from the library's helpers.  It exports a
+/// function with the name and the arguments of `ClaimIssuer::is_claim_valid`, but what it answers
+/// depends on the scheme number only - the unit value (the only confirmation the trait knows), or a
+/// value of another type (the ERC-3643 style `-> bool`, an error code, ...), or a trap.
+pub const FOREIGN_UNIT: [u32; 2] = [200, 207];
+#[contract]
+pub struct ForeignC;
+#[contractimpl]
+impl ForeignC {
+    pub fn is_claim_valid(e: Env, _identity: Address, _claim_topic: u32, scheme: u32, _sig_data: Bytes, _claim_data: Bytes) -> Val {
+        match scheme {
+            200 => ().into_val(&e),                                               // confirms
+            201 => false.into_val(&e),                                            // `-> bool` issuer saying no
+            202 => true.into_val(&e),                                             // `-> bool` issuer saying yes: still not the unit value
+            203 => 0u32.into_val(&e),                                             // error code 0
+            204 => panic_with_error!(&e, ClaimIssuerError::NotAllowed),          // the library's way of rejecting
+            205 => panic!("rejected"),
+            206 => Bytes::new(&e).into_val(&e),
+            207 => Option::<u32>::None.into_val(&e),                              // None is the unit value on the wire: confirms
+            208 => Val::from(soroban_sdk::Error::from_contract_error(7)),         // an error returned as a value
+            209 => Vec::<u32>::new(&e).into_val(&e),
+            _ => panic_with_error!(&e, ClaimIssuerError::SigDataMismatch),
+        }
+    }
+}
+
 #[contract]
 pub struct VerifierC;
 #[contractimpl]
@@ -274,14 +300,17 @@ fn to_vec(b: &Bytes) -> std::vec::Vec<u8> { b.iter().collect() }
 // ------------------------------------------------------------------------------------------
 // one world (one trace)
 // ------------------------------------------------------------------------------------------
-struct Sizes { ctis: usize, irss: usize, idents: usize, issuers: usize, bogus: usize, accounts: usize, topics: std::vec::Vec<u32>, keys_per_scheme: usize }
+struct Sizes { ctis: usize, irss: usize, idents: usize, issuers: usize, bogus: usize, accounts: usize, topics: std::vec::Vec<u32>, keys_per_scheme: usize,
+               foreign: usize,      // foreign issuer contracts (ForeignC)
+               specials: bool }     // the first identity, registry and account and the verifier are also used as issuer addresses
 
 struct World {
     e: Env,
     addrs: std::vec::Vec<Address>,          // index = model address
     ctis: std::vec::Vec<usize>, irss: std::vec::Vec<usize>, idents: std::vec::Vec<usize>, issuers: std::vec::Vec<usize>,
     bogus: std::vec::Vec<usize>, accounts: std::vec::Vec<usize>, verifier: usize,
-    iaddrs: std::vec::Vec<usize>,           // addresses used as claim issuers / trusted issuers (issuers + bogus)
+    foreign: std::vec::Vec<usize>,          // foreign issuer contracts
+    iaddrs: std::vec::Vec<usize>,           // addresses used as claim issuers / trusted issuers (issuers + foreign + bogus [+ specials])
     daddrs: std::vec::Vec<usize>,           // addresses used as identities (idents + bogus)
     topics: std::vec::Vec<u32>,
     keys: std::vec::Vec<Key>,
@@ -319,17 +348,19 @@ impl World {
         let irss = grp(sz.irss, &mut || e.register(IrsC, ()), &mut addrs);
         let idents = grp(sz.idents, &mut || e.register(IdentC, ()), &mut addrs);
         let issuers = grp(sz.issuers, &mut || e.register(IssuerC, ()), &mut addrs);
+        let foreign = grp(sz.foreign, &mut || e.register(ForeignC, ()), &mut addrs);
         let bogus = grp(sz.bogus, &mut || Address::generate(&e), &mut addrs);
         let accounts = grp(sz.accounts, &mut || Address::generate(&e), &mut addrs);
         let verifier = grp(1, &mut || e.register(VerifierC, ()), &mut addrs)[0];
-        let mut iaddrs = issuers.clone(); iaddrs.extend(bogus.iter());
+        let mut iaddrs = issuers.clone(); iaddrs.extend(foreign.iter()); iaddrs.extend(bogus.iter());
+        if sz.specials { iaddrs.extend([idents[0], ctis[0], accounts[0], verifier]); }
         let mut daddrs = idents.clone(); daddrs.extend(bogus.iter());
         let mut keys = std::vec::Vec::new();
         for scheme in [ED25519, SECP256K1, SECP256R1] { for _ in 0..sz.keys_per_scheme { keys.push(mk_key(seed_rng, scheme)); } }
         let mut cids = std::vec::Vec::new();
         for &i in &iaddrs { for &t in &sz.topics { cids.push((idc::generate_claim_id(&e, &addrs[i], t), i, t)); } }
         let uris = std::vec![String::from_str(&e, ""), String::from_str(&e, "https://example.com/kyc"), String::from_str(&e, "ipfs://claim")];
-        World { e, addrs, ctis, irss, idents, issuers, bogus, accounts, verifier, iaddrs, daddrs, topics: sz.topics.clone(), keys,
+        World { e, addrs, ctis, irss, idents, issuers, bogus, accounts, verifier, foreign, iaddrs, daddrs, topics: sz.topics.clone(), keys,
                 extra_keys: std::vec![], net, now, now0: now, blobs: Blobs::default(), sigs: std::vec![], revq: std::vec![], cids, items: std::vec![], uris, labels: Default::default(), cases: std::vec![], tag: "", last_mut: "start".into(), last_verify: std::vec![] }
     }
     fn a(&self, i: usize) -> &Address { &self.addrs[i] }
@@ -414,7 +445,7 @@ impl World {
                         Some(c) => {
                             let confirmed = matches!(ClaimIssuerClientX::new(&e, self.a(i)).try_is_claim_valid(self.a(d), &t, &c.scheme, &c.signature, &c.data), Ok(Ok(_)));
                             self.label(if confirmed { "held_claim/confirmed" } else { "held_claim/rejected" });
-                            let mut why = "not_an_issuer";
+                            let mut why = if self.foreign.contains(&i) { "foreign_answer" } else { "not_an_issuer" };
                             let info = if self.issuers.contains(&i) {
                                 let icl = IssuerCClient::new(&e, self.a(i));
                                 let sg = to_vec(&c.signature);
@@ -488,10 +519,11 @@ impl World {
         let xdr: std::vec::Vec<String_> = (0..self.addrs.len()).map(|i| { let x = self.xdr(i); pair(&n(i as u64), &format!("B {} {}", x.len(), hexz(&x))) }).collect();
         let nl = |v: &std::vec::Vec<usize>| list(&v.iter().map(|&i| n(i as u64)).collect::<std::vec::Vec<_>>());
         // keys and revocation queries refer to blobs: they are interned by the caller before printing
-        format!("HDR (B 32 {}) {} {} {} {} {} {} {} {} {} {} {} {} {} {} {} KEYS REVQ",
+        let fo: std::vec::Vec<String_> = self.foreign.iter().map(|&f| pair(&n(f as u64), &zl(&FOREIGN_UNIT))).collect();
+        format!("HDR (B 32 {}) {} {} {} {} {} {} {} {} {} {} {} {} {} {} {} KEYS REVQ {}",
             hexz(&self.net), self.now0, list(&xdr), list(&self.sigs), MAX_CLAIM_TOPICS, MAX_ISSUERS, MAX_KEYS_PER_TOPIC, MAX_REGISTRIES_PER_KEY, MAX_COUNTRY_ENTRIES,
             nl(&self.ctis), nl(&self.irss), nl(&self.idents), nl(&self.issuers), nl(&self.accounts), nl(&self.iaddrs),
-            list(&self.topics.iter().map(|t| zz(*t as u64)).collect::<std::vec::Vec<_>>()))
+            list(&self.topics.iter().map(|t| zz(*t as u64)).collect::<std::vec::Vec<_>>()), list(&fo))
     }
 
     fn finish(mut self, desc: &str) -> TraceResult {
@@ -699,6 +731,10 @@ impl World {
         let sig = self.sign(k, &msg);
         ClaimSpec { topic: t, scheme: self.keys[k].scheme, issuer: i, sig, data, uri: 0 }
     }
+    /// a claim naming the foreign issuer f: the scheme number selects what f answers
+    fn foreign_claim(&self, f: usize, t: u32, scheme: u32) -> ClaimSpec {
+        ClaimSpec { topic: t, scheme, issuer: f, sig: std::vec![(scheme % 251) as u8, 1], data: std::vec![t as u8, 2, 3], uri: 0 }
+    }
     /// n ledgers close (sequence += n) while dt seconds pass
     fn ledger(&mut self, n_: u32, dt: u64) {
         self.now += dt; let t = self.now;
@@ -754,7 +790,9 @@ fn defect_name(d: u32) -> &'static str {
 // ------------------------------------------------------------------------------------------
 // scenarios and random traces
 // ------------------------------------------------------------------------------------------
-fn std_sizes() -> Sizes { Sizes { ctis: 2, irss: 2, idents: 2, issuers: 3, bogus: 1, accounts: 3, topics: std::vec![1, 2, 3, 4], keys_per_scheme: 2 } }
+fn std_sizes() -> Sizes { Sizes { ctis: 2, irss: 2, idents: 2, issuers: 3, bogus: 1, accounts: 3, topics: std::vec![1, 2, 3, 4], keys_per_scheme: 2, foreign: 0, specials: false } }
+/// the standard universe with one reference issuer replaced by a foreign issuer contract
+fn foreign_sizes() -> Sizes { Sizes { issuers: 2, foreign: 1, ..std_sizes() } }
 
 /// standard fixture: registry c0 with topics `ts`, issuers with the given topics, one key each allowed for all
 /// their topics, accounts a0->d0, a1->d1, verifier linked; returns nothing (state is in the world)
@@ -777,7 +815,7 @@ fn limit_scenario(id: usize, rng: &mut Rng) -> TraceResult {
     let mk = |rng: &mut Rng, sz: &Sizes| { let mut w = World::new(rng, sz); w.tag = "d:"; w };
     match id {
         0 => { // MAX_ISSUERS: 51 candidate issuers for one topic
-            let sz = Sizes { ctis: 1, irss: 1, idents: 1, issuers: 0, bogus: MAX_ISSUERS as usize + 1, accounts: 1, topics: std::vec![1], keys_per_scheme: 1 };
+            let sz = Sizes { ctis: 1, irss: 1, idents: 1, issuers: 0, bogus: MAX_ISSUERS as usize + 1, accounts: 1, topics: std::vec![1], keys_per_scheme: 1, foreign: 0, specials: false };
             let mut w = mk(rng, &sz);
             let c0 = w.ctis[0];
             w.add_topic(c0, 1);
@@ -787,7 +825,7 @@ fn limit_scenario(id: usize, rng: &mut Rng) -> TraceResult {
             w.finish("MAX_ISSUERS")
         }
         1 => { // MAX_KEYS_PER_TOPIC: 51 keys for one topic
-            let sz = Sizes { ctis: 1, irss: 1, idents: 1, issuers: 1, bogus: 0, accounts: 1, topics: std::vec![1], keys_per_scheme: 1 };
+            let sz = Sizes { ctis: 1, irss: 1, idents: 1, issuers: 1, bogus: 0, accounts: 1, topics: std::vec![1], keys_per_scheme: 1, foreign: 0, specials: false };
             let mut w = mk(rng, &sz);
             let (c0, i0) = (w.ctis[0], w.issuers[0]);
             w.extra_keys.push((std::vec![1, 7], ED25519)); w.extra_keys.push((std::vec![1 + MAX_KEYS_PER_TOPIC as u8, 7], ED25519));
@@ -904,8 +942,99 @@ fn limit_scenario(id: usize, rng: &mut Rng) -> TraceResult {
             w.update_issuer(c0, i1, &[1]); w.remove_issuer(c0, i1); w.verify(a0);       // i1 de-listed: its dangling id no longer matters
             w.finish("dangling claim ids")
         }
+        9 => { // foreign issuer contracts: every kind of answer, at every place an issuer is asked; special addresses as issuers
+            let sz = Sizes { ctis: 2, irss: 1, idents: 2, issuers: 1, bogus: 1, accounts: 2, topics: std::vec![1, 2], keys_per_scheme: 1, foreign: 2, specials: true };
+            let mut w = mk(rng, &sz);
+            let (c0, i0, f0, f1, x) = (w.ctis[0], w.issuers[0], w.foreign[0], w.foreign[1], w.bogus[0]);
+            let (d0, d1, a0, a1) = (w.idents[0], w.idents[1], w.accounts[0], w.accounts[1]);
+            fixture(&mut w, &[1], &[(f0, std::vec![1])]);                       // topic 1 required, the foreign issuer f0 its only trusted issuer
+            for scheme in 199..=210u32 {
+                let c = w.foreign_claim(f0, 1, scheme);
+                let ok = w.is_claim_valid(f0, d0, 1, scheme, &c.sig.clone(), &c.data.clone()); w.label(&format!("foreign/is_claim_valid/s{}/{}", scheme, if ok { "ok" } else { "fail" }));
+                w.q_validate_claim(&c, 1, f0, d0);
+                let ok = w.add_claim(d0, &c); w.label(&format!("foreign/add_claim/s{}/{}", scheme, if ok { "ok" } else { "fail" }));
+                w.force_claim(d0, f0, 1, 1, &c);                                // stored behind the issuer's back: verify_identity asks the issuer
+                let ok = w.verify(a0); w.label(&format!("foreign/verify/s{}/{}", scheme, if ok { "ok" } else { "fail" }));
+            }
+            // the held claim of f0 is answered `false`; a second issuer of the topic, before and after f0 in the list
+            let no = w.foreign_claim(f0, 1, 201); w.force_claim(d0, f0, 1, 1, &no);
+            w.add_issuer(c0, f1, &[1]); let yes1 = w.foreign_claim(f1, 1, 200); w.add_claim(d0, &yes1);
+            let ok = w.verify(a0); w.label(&format!("foreign/false_then_unit/{}", ok));           // f0 says false, f1 confirms: verified
+            let no1 = w.foreign_claim(f1, 1, 202); w.force_claim(d0, f1, 1, 1, &no1);
+            let ok = w.verify(a0); w.label(&format!("foreign/false_then_true/{}", ok));           // false and `true`: neither is a confirmation
+            let yes = w.foreign_claim(f0, 1, 207); w.force_claim(d0, f0, 1, 1, &yes);
+            let ok = w.verify(a0); w.label(&format!("foreign/unit_then_true/{}", ok));
+            w.remove_issuer(c0, f0); let ok = w.verify(a0); w.label(&format!("foreign/delisted_unit/{}", ok));   // the always-yes issuer de-listed
+            w.add_issuer(c0, f0, &[1]); w.verify(a0);
+            // a reference issuer next to foreign ones
+            w.add_issuer(c0, i0, &[1]); let (pk, sc) = (w.keys[0].pk.clone(), w.keys[0].scheme); w.allow_key(i0, &pk, c0, sc, 1);
+            w.force_claim(d0, f0, 1, 1, &no); let g = w.far_claim(d0, i0, 1, 0); w.add_claim(d0, &g);
+            let ok = w.verify(a0); w.label(&format!("foreign/false_true_genuine/{}", ok));
+            w.set_revoked(i0, d0, 1, &g.data.clone(), true); let ok = w.verify(a0); w.label(&format!("foreign/false_true_revoked/{}", ok));
+            // the second identity holds only non-unit answers, for both required topics
+            w.add_topic(c0, 2); w.update_issuer(c0, f1, &[2, 1]);
+            let c = w.foreign_claim(f1, 2, 203); w.force_claim(d1, f1, 2, 2, &c); let c = w.foreign_claim(f1, 1, 200); w.force_claim(d1, f1, 1, 1, &c);
+            let ok = w.verify(a1); w.label(&format!("foreign/unit_and_code/{}", ok));
+            let c = w.foreign_claim(f1, 2, 200); w.add_claim(d1, &c); let ok = w.verify(a1); w.label(&format!("foreign/unit_and_unit/{}", ok));
+            w.remove_topic(c0, 2);
+            // special addresses as trusted issuers of the only required topic: no contract, the identity itself, the
+            // registry, the account, the verifier itself - none of them confirms anything
+            w.remove_issuer(c0, f0); w.remove_issuer(c0, f1); w.remove_issuer(c0, i0);
+            for sp in [x, d0, c0, a0, w.verifier] {
+                w.add_issuer(c0, sp, &[1]);
+                let c = ClaimSpec { issuer: sp, ..w.foreign_claim(f0, 1, 200) };
+                w.add_claim(d0, &c); w.force_claim(d0, sp, 1, 1, &c);
+                let ok = w.verify(a0); w.label(&format!("foreign/special_issuer/{}", ok));
+                w.is_claim_valid(sp, d0, 1, 200, &c.sig.clone(), &c.data.clone());
+                if sp != w.verifier { w.q_validate_claim(&c, 1, sp, d0); }
+                w.remove_issuer(c0, sp);
+            }
+            // the issuer's own functions do not exist at a foreign issuer
+            w.allow_key(f0, &pk, c0, sc, 1); w.invalidate(f0, d0, 1); w.set_revoked(f0, d0, 1, &[1], true); w.authorized_for(f0, c0, 1);
+            w.finish("foreign issuer contracts and special addresses as issuers")
+        }
+        10 => { // degenerate arguments: lists naming an entry twice (every length and position), equal parties, repeated operations
+            let mut w = mk(rng, &std_sizes());
+            let (c0, r0) = (w.ctis[0], w.irss[0]);
+            let (i0, i1) = (w.issuers[0], w.issuers[1]);
+            let (d0, a0, a1, a2) = (w.idents[0], w.accounts[0], w.accounts[1], w.accounts[2]);
+            fixture(&mut w, &[1, 2, 3], &[(i0, std::vec![1, 3]), (i1, std::vec![2])]);
+            let (pk, sc) = (w.keys[1].pk.clone(), w.keys[1].scheme);
+            for t in [1u32, 3] { let c = w.far_claim(d0, i0, t, 0); w.add_claim(d0, &c); }
+            let c2 = w.far_claim(d0, i1, 2, 1); w.add_claim(d0, &c2); w.verify(a0);
+            w.remove_issuer(c0, i1); w.verify(a0);                               // topic 2 lost its only issuer (its key stays allowed at the issuer)
+            // topic lists naming a topic twice are refused, whatever their length and wherever the repetition is
+            for ts in [std::vec![2u32, 2], std::vec![2, 1, 2], std::vec![1, 2, 2], std::vec![2, 2, 1], std::vec![3, 3, 3], std::vec![1, 2, 3, 1], std::vec![], std::vec![4], std::vec![2, 4]] {
+                let ok = w.add_issuer(c0, i1, &ts); w.label(&format!("dup/add_issuer/{}/{}", ts.iter().map(|t| t.to_string()).collect::<std::vec::Vec<_>>().join("_"), if ok { "ok" } else { "fail" }));
+                if ok { w.verify(a0); w.update_issuer(c0, i1, &[2]); w.remove_issuer(c0, i1); let v = w.verify(a0); w.label(&format!("dup/after_cleanup/verify_{}", v)); }
+            }
+            for ts in [std::vec![1u32, 1], std::vec![3, 3], std::vec![2, 2], std::vec![1, 3, 1], std::vec![3, 1, 1], std::vec![1, 1, 3], std::vec![2, 1, 2, 3], std::vec![], std::vec![4]] {
+                let ok = w.update_issuer(c0, i0, &ts); w.label(&format!("dup/update_issuer/{}/{}", ts.iter().map(|t| t.to_string()).collect::<std::vec::Vec<_>>().join("_"), if ok { "ok" } else { "fail" }));
+                if ok { w.verify(a0); w.update_issuer(c0, i0, &[ts[0]]); w.remove_issuer(c0, i0); let v = w.verify(a0); w.label(&format!("dup/after_cleanup/verify_{}", v)); w.add_issuer(c0, i0, &[1, 3]); }
+            }
+            // the history of the de-listed issuer that keeps counting: list with a repetition, then the same set, then removal
+            w.add_issuer(c0, i1, &[2, 2]); w.update_issuer(c0, i1, &[2]); w.remove_issuer(c0, i1); let v = w.verify(a0); w.label(&format!("dup/delisted_after_dup_add/verify_{}", v));
+            w.add_issuer(c0, i1, &[3]); w.update_issuer(c0, i1, &[2, 2]); w.update_issuer(c0, i1, &[2]); w.remove_issuer(c0, i1); let v = w.verify(a0); w.label(&format!("dup/delisted_after_dup_update/verify_{}", v));
+            // updates that change nothing / only the order; the properly re-listed issuer counts again, and not after its removal
+            w.add_issuer(c0, i1, &[2]); let v = w.verify(a0); w.label(&format!("dup/relisted/verify_{}", v));
+            w.update_issuer(c0, i1, &[2]); w.update_issuer(c0, i0, &[3, 1]); w.update_issuer(c0, i0, &[3, 1]); w.update_issuer(c0, i0, &[1, 3]); w.verify(a0);
+            w.remove_issuer(c0, i1); w.remove_issuer(c0, i1); let v = w.verify(a0); w.label(&format!("dup/removed_twice/verify_{}", v));
+            w.add_issuer(c0, i1, &[2]); w.add_issuer(c0, i1, &[2]); w.add_issuer(c0, i1, &[1]);                // already trusted
+            // repeated / idempotent operations elsewhere
+            w.add_topic(c0, 3); w.remove_topic(c0, 4); w.remove_topic(c0, 3); w.remove_topic(c0, 3); w.verify(a0); w.add_topic(c0, 3); w.verify(a0);
+            w.update_issuer(c0, i0, &[1, 3]); w.verify(a0);
+            w.allow_key(i1, &pk, c0, sc, 2); w.remove_key(i1, &pk, c0, sc, 2); w.remove_key(i1, &pk, c0, sc, 2); w.verify(a0); w.allow_key(i1, &pk, c0, sc, 2); w.verify(a0);
+            w.add_claim(d0, &c2); w.add_claim(d0, &c2); w.remove_claim(d0, i1, 2); w.remove_claim(d0, i1, 2); w.verify(a0); w.add_claim(d0, &c2); w.verify(a0);
+            w.set_revoked(i1, d0, 2, &c2.data.clone(), true); w.set_revoked(i1, d0, 2, &c2.data.clone(), true); w.verify(a0);
+            w.set_revoked(i1, d0, 2, &c2.data.clone(), false); w.set_revoked(i1, d0, 2, &c2.data.clone(), false); w.verify(a0);
+            // equal parties
+            w.recover_identity(r0, a0, a0); w.verify(a0); w.modify_identity(r0, a0, d0); w.verify(a0);
+            w.add_identity(r0, a2, a2, 1); w.verify(a2); w.modify_identity(r0, a2, d0); w.verify(a2); w.recover_identity(r0, a2, a1); w.recover_identity(r0, a1, a1);
+            w.set_cti(c0); w.set_cti(c0); w.set_irs(r0); w.verify(a0);
+            w.finish("degenerate arguments: repeated list entries, equal parties, repeated operations")
+        }
         _ => { // MAX_REGISTRIES_PER_KEY: 22 (topic, registry) pairs for one key
-            let sz = Sizes { ctis: 2, irss: 1, idents: 1, issuers: 1, bogus: 0, accounts: 1, topics: (1..=11).collect(), keys_per_scheme: 1 };
+            let sz = Sizes { ctis: 2, irss: 1, idents: 1, issuers: 1, bogus: 0, accounts: 1, topics: (1..=11).collect(), keys_per_scheme: 1, foreign: 0, specials: false };
             let mut w = mk(rng, &sz);
             let (c0, c1, i0) = (w.ctis[0], w.ctis[1], w.issuers[0]);
             let all: std::vec::Vec<u32> = (1..=11).collect();
@@ -917,10 +1046,10 @@ fn limit_scenario(id: usize, rng: &mut Rng) -> TraceResult {
         }
     }
 }
-const NLIMITS: usize = 9;
+const NLIMITS: usize = 11;
 
 fn scenario(id: usize, rng: &mut Rng) -> TraceResult {
-    let sz = if id == 6 { Sizes { ctis: 1, irss: 1, idents: 1, issuers: 1, bogus: 1, accounts: 1, topics: (101..=116).collect(), keys_per_scheme: 1 } } else { std_sizes() };
+    let sz = if id == 6 { Sizes { ctis: 1, irss: 1, idents: 1, issuers: 1, bogus: 1, accounts: 1, topics: (101..=116).collect(), keys_per_scheme: 1, foreign: 0, specials: false } } else { std_sizes() };
     let mut w = World::new(rng, &sz); w.tag = "d:";
     if id == 6 {
         let c0 = w.ctis[0];
@@ -1035,7 +1164,7 @@ const NSCENARIOS: usize = 8;
 fn subset(rng: &mut Rng, ts: &[u32], p_num: u64, p_den: u64) -> std::vec::Vec<u32> { ts.iter().cloned().filter(|_| rng.chance(p_num, p_den)).collect() }
 
 fn random_trace(idx: usize, rng: &mut Rng, thorough: bool) -> TraceResult {
-    let sz = if thorough && idx % 3 == 0 { Sizes { ctis: 2, irss: 2, idents: 3, issuers: 3, bogus: 2, accounts: 4, topics: std::vec![1, 2, 3, 4, 5], keys_per_scheme: 2 } } else { std_sizes() };
+    let sz = if thorough && idx % 3 == 0 { Sizes { ctis: 2, irss: 2, idents: 3, issuers: 3, bogus: 2, accounts: 4, topics: std::vec![1, 2, 3, 4, 5], keys_per_scheme: 2, foreign: 1, specials: false } } else if idx % 3 == 1 { foreign_sizes() } else { std_sizes() };
     let mut w = World::new(rng, &sz);
     let topics = w.topics.clone();
     let (ctis, irss, idents, issuers, iaddrs, daddrs, accounts) = (w.ctis.clone(), w.irss.clone(), w.idents.clone(), w.issuers.clone(), w.iaddrs.clone(), w.daddrs.clone(), w.accounts.clone());
@@ -1095,6 +1224,12 @@ fn random_trace(idx: usize, rng: &mut Rng, thorough: bool) -> TraceResult {
                 match rng.below(10) { 0..=5 => { w.allow_key(ri, &pk, reg, sc, t); } 6 => { w.allow_key(ri, &pk, reg, if rng.chance(1, 2) { sc + 1 } else { 7 }, t); if !w.extra_keys.iter().any(|x| x.0 == pk) && w.extra_keys.len() < 2 { /* observed through keys_for_topic */ } }
                     7 => { w.allow_key(ri, &[], reg, sc, t); }
                     _ => { if let (true, Some((ai, ak, at))) = (rng.chance(3, 4), w.allowed_combo(rng)) { let (apk, asc) = (w.keys[ak].pk.clone(), w.keys[ak].scheme); w.remove_key(ai, &apk, if rng.chance(4, 5) { ctis[0] } else { ctis[1] }, asc, at); } else { w.remove_key(ri, &pk, reg, sc, t); } } }
+            }
+            44..=66 if !w.foreign.is_empty() && rng.chance(1, 4) => { // a claim naming a foreign issuer (any answer), added or stored behind its back
+                let f = if rng.chance(9, 10) { *rng.pick(&w.foreign.clone()) } else { i };
+                let scheme = if rng.chance(1, 2) { *rng.pick(&FOREIGN_UNIT) } else { 199 + rng.below(13) as u32 };
+                let cl = w.foreign_claim(f, t, scheme);
+                if rng.chance(1, 2) { if w.add_claim(d, &cl) { held.push((d, f, t, cl)); } } else { w.force_claim(d, f, t, t, &cl); held.push((d, f, t, cl)); }
             }
             44..=57 => { // add a claim (genuine or defective) through the library's add_claim
                 let df = if rng.chance(1, 2) { 0 } else { rng.below(NDEFECTS as u64) as u32 };
